@@ -19,7 +19,7 @@ CHECKS = {
              note="recursion bounded by construction; builtins with external effects (readline, slurp of devices, setenv) excluded", ref="5/C04"),
  "C05": dict(technique="crash/hang sentinel over exhaustive token soups, truncated repository sources and hostile random texts through 9 reader entry points, plus Go's coverage-guided fuzzer on the same entry points",
              text="All token sequences up to a length bound, every truncation of windows of the repository's lisp sources, and seeded hostile texts go through READ/READWithPreamble/Read_str/read-string and PRINT under recover() and a watchdog.",
-             note="inputs bounded in size and nesting; hang = no return within 60 s on re-run", ref="5/C05"),
+             note="inputs bounded in size and nesting; hang = no return within 10 s and, run again, within 30 s", ref="5/C05"),
  "C06": dict(technique="relational round-trip monitor with an independent structural comparison (exhaustive short strings + seeded values and accepted texts + coverage-guided fuzzing of strings)",
              text="PRINT then READ (and pr-str/read-string) of exhaustively enumerated short strings over the escaping-relevant alphabet and of seeded nested values must give a canonically equal value; accepted texts must satisfy READ.PRINT.READ = READ.",
              note="comparison by the harness value model (canon), never the interpreter's =; three listed known findings", ref="5/C06"),
